@@ -576,7 +576,23 @@ func builtinDateSetYear(call FunctionCall) Value {
 	return date.Value()
 }
 
+// builtinDateReviveForSetYear implements step 1 of 15.9.5.40/41: setFullYear and
+// setUTCFullYear take +0 (as a local time for the former) for the time value of an
+// invalid date, so they are the two setters that make an invalid date valid again.
+func builtinDateReviveForSetYear(call FunctionCall, timeLocal bool) {
+	obj := call.thisObject()
+	if date := dateObjectOf(call.runtime, obj); date.isNaN {
+		zone := time.UTC
+		if timeLocal {
+			zone = time.Local //nolint:gosmopolitan
+		}
+		date.Set(float64(time.Date(1970, time.January, 1, 0, 0, 0, 0, zone).UnixMilli()))
+		obj.value = date
+	}
+}
+
 func builtinDateSetFullYear(call FunctionCall) Value {
+	builtinDateReviveForSetYear(call, true)
 	obj, date, ecmaTime, value := builtinDateBeforeSet(call, 3, true)
 	if ecmaTime == nil {
 		return NaNValue()
@@ -596,6 +612,7 @@ func builtinDateSetFullYear(call FunctionCall) Value {
 }
 
 func builtinDateSetUTCFullYear(call FunctionCall) Value {
+	builtinDateReviveForSetYear(call, false)
 	obj, date, ecmaTime, value := builtinDateBeforeSet(call, 3, false)
 	if ecmaTime == nil {
 		return NaNValue()
